@@ -337,7 +337,46 @@ struct Obs {
     bool has_equal_range{false};
     int nk{8};         // keys looked up: -1 .. nk-2
     long lk[2][max_nkeys][NFN]{};
+    int nw{0};         // wide probes looked up (transparent comparators only), see wide_probe()
+    long wk[8][NFN]{};
 };
+
+// Probes of convertible-but-wider arithmetic types whose value is NOT representable in the key type int: a transparent
+// comparator must compare the ORIGINAL value (std::set does); an implementation that converts to the key first finds
+// 2 for 2.5 and 3 for 2^32 + 3.
+struct WideProbe {
+    bool is_ll;
+    double d;
+    long long ll;
+};
+constexpr int nwide = 8;
+auto wide_probe(int idx, int u) -> WideProbe
+{
+    constexpr long long two32 = 4294967296LL;
+    switch (idx) {
+    case 0: return {false, -0.5, 0};                         // below every key, converts to 0
+    case 1: return {false, 2.5, 0};                          // between two keys, converts to 2
+    case 2: return {false, 3.75, 0};
+    case 3: return {false, static_cast<double>(u) - 0.5, 0}; // above every key, converts to the largest key
+    case 4: return {true, 0, two32 + 2};                     // > INT_MAX, wraps to 2
+    case 5: return {true, 0, -two32 + 3};                    // < INT_MIN, wraps to 3
+    case 6: return {true, 0, 2147483648LL};                  // INT_MAX + 1, wraps to INT_MIN
+    default: return {true, 0, 2 * two32 + (u - 1)};          // wraps to the largest key
+    }
+}
+template <typename OSet>
+auto wide_expect(OSet const& o, WideProbe const& p, long* want) -> void
+{
+    auto mo = [&](typename OSet::const_iterator it) { return static_cast<long>(std::distance(o.begin(), it)); };
+    long wf = 0, wl = 0, wu = 0, wc = 0;
+    if (p.is_ll) {
+        wf = mo(o.find(p.ll)), wl = mo(o.lower_bound(p.ll)), wu = mo(o.upper_bound(p.ll)), wc = static_cast<long>(o.count(p.ll));
+    } else {
+        wf = mo(o.find(p.d)), wl = mo(o.lower_bound(p.d)), wu = mo(o.upper_bound(p.d)), wc = static_cast<long>(o.count(p.d));
+    }
+    long const w[NFN] = {wf, wf, wc != 0 ? 1 : 0, wc, wl, wl, wu, wu, wl, wu, wl, wu};
+    std::copy(w, w + NFN, want);
+}
 
 // ------------------------------------------------------------------ ... and how it is judged against std::set (no templates)
 auto judge(char const* name, Obs const& o, Model const& m, std::size_t cap) -> std::string
@@ -370,6 +409,26 @@ auto judge(char const* name, Obs const& o, Model const& m, std::size_t cap) -> s
                 if (f == F_CONTAINS) { return fmt("%s: contains(%s %d) is %s, std::set says %s", name, kt, k, got != 0 ? "true" : "false", wc != 0 ? "true" : "false"); }
                 if (f == F_COUNT) { return fmt("%s: count(%s %d) is %ld, std::set says %ld", name, kt, k, got, wc); }
                 return fmt("%s: %s(%s %d) gives offset %s, std::set gives %ld", name, fn_names[f], kt, k, show_off(got).c_str(), want[f]);
+            }
+        }
+    }
+    if (o.nw > 0) { // oracle: std::set with the std transparent comparator of the same direction, asked with the same probe
+        std::set<int, std::less<>> const up(m.begin(), m.end());
+        std::set<int, std::greater<>> const down(m.begin(), m.end());
+        for (int i = 0; i < o.nw; ++i) {
+            auto const p = wide_probe(i, o.nk - 2);
+            long want[NFN];
+            if (m.key_comp().desc) {
+                wide_expect(down, p, want);
+            } else {
+                wide_expect(up, p, want);
+            }
+            for (int f = 0; f < (o.has_equal_range ? NFN : F_ER1); ++f) {
+                long const got = o.wk[i][f];
+                if (got == want[f]) { continue; }
+                std::string const pv = p.is_ll ? fmt("long long %lld", p.ll) : fmt("double %g", p.d);
+                if (f == F_CONTAINS || f == F_COUNT) { return fmt("%s: %s(%s) is %ld, std::set with the same transparent comparator says %ld", name, fn_names[f], pv.c_str(), got, want[f]); }
+                return fmt("%s: %s(%s) gives offset %s, std::set with the same transparent comparator gives %ld", name, fn_names[f], pv.c_str(), show_off(got).c_str(), want[f]);
             }
         }
     }
@@ -435,6 +494,17 @@ auto observe(Set& x, bool full, Obs& o) -> void
         int const k = i - 1;
         look<Flat>(x, k, o.lk[0][i]);
         if constexpr (Transparent) { look<Flat>(x, static_cast<long>(k), o.lk[1][i]); } // heterogeneous lookup
+    }
+    if constexpr (Transparent) { // values that convert to int but are not representable in it
+        o.nw = nwide;
+        for (int i = 0; i < nwide; ++i) {
+            auto const p = wide_probe(i, U);
+            if (p.is_ll) {
+                look<Flat>(x, p.ll, o.wk[i]);
+            } else {
+                look<Flat>(x, p.d, o.wk[i]);
+            }
+        }
     }
 }
 
